@@ -200,12 +200,63 @@ func c16FromWire(c *mon.Ctx, g *mon.Guard, k *c16Case) {
 	}
 }
 
+// c16GetStatus: the request GetStatus sends, and its decoding of replies of every length.
+func c16GetStatus(c *mon.Ctx) {
+	r := c.Rand(5)
+	for n := 0; n <= 96; n++ {
+		for rep := 0; rep < c.Pick(4, 200); rep++ {
+			payload := r.Bytes(n)
+			sim := simkernel.New(uint32(n) + 1)
+			sim.OnSend = func(s *simkernel.Sim, idx int, m simkernel.SentMsg) []simkernel.Step {
+				return []simkernel.Step{{Dgram: simkernel.Ack(m, 0)}, {Dgram: simkernel.Dgram(uapi.MsgGet, 0, m.Seq, 0, payload)}}
+			}
+			cl := &libaudit.AuditClient{Netlink: sim}
+			k := &c16Case{Kind: "getstatus", Buf: payload}
+			var st *libaudit.AuditStatus
+			var err error
+			if p, stk := mon.Try(func() { st, err = cl.GetStatus() }); p != nil {
+				c.Violation("getstatus-panic", fmt.Sprintf("GetStatus panicked on a %d-byte reply: %v\n%s", n, p, stk), k)
+				continue
+			}
+			c.Add("evaluations", 1)
+			c.Add("getstatus_cases", 1)
+			if len(sim.Sent) != 1 || sim.Sent[0].Type != uapi.MsgGet || sim.Sent[0].Flags != uapi.NlmFRequest|uapi.NlmFAck || len(sim.Sent[0].Data) != 0 {
+				c.Violation("getstatus-request", fmt.Sprintf("GetStatus sent %d requests; first: type=%d flags=%#x payload=%d bytes; want one AUDIT_GET (1000) with REQUEST|ACK and no payload", len(sim.Sent), sim.Sent[0].Type, sim.Sent[0].Flags, len(sim.Sent[0].Data)), k)
+			}
+			if n < uapi.StatusMinSize {
+				if err == nil {
+					c.Violation("getstatus-short-accepted", fmt.Sprintf("GetStatus accepted a %d-byte audit_status reply", n), k)
+				}
+				continue
+			}
+			if err != nil || st == nil {
+				c.Violation("getstatus-rejected", fmt.Sprintf("GetStatus rejected a %d-byte reply: %v", n, err), k)
+				continue
+			}
+			got := []uint32{uint32(st.Mask), st.Enabled, st.Failure, st.PID, st.RateLimit, st.BacklogLimit, st.Lost, st.Backlog, st.FeatureBitmap, st.BacklogWaitTime, st.BacklogWaitTimeActual}
+			for i, v := range got {
+				off := 4 * i
+				if off+4 <= n {
+					if want := binary.LittleEndian.Uint32(payload[off:]); v != want {
+						c.Violation("getstatus-field", fmt.Sprintf("GetStatus(%d-byte reply): word %d = %#x, the kernel laid out %#x", n, i, v, want), k)
+						break
+					}
+				} else if off >= n && v != 0 {
+					c.Violation("getstatus-unreached-not-zero", fmt.Sprintf("GetStatus(%d-byte reply): word %d = %#x although the reply ends before it", n, i, v), k)
+					break
+				}
+			}
+		}
+	}
+}
+
 func c16Run(c *mon.Ctx) {
 	ev := c.Counter("evaluations")
 	nt := c.DistinctSet("nontrivial")
 	if c.Phase == "layout" {
 		c16Constants(c)
 	}
+	c16GetStatus(c)
 	// setters x values x wait modes
 	var cases []*c16Case
 	for _, s := range c16Setters {
@@ -281,7 +332,7 @@ func c16Run(c *mon.Ctx) {
 func init() {
 	register(&mon.CheckSpec{
 		ID: "C16", Level: "exploration",
-		Rule: "cases = every Set* command x {all uint32/int32 boundary values, both booleans, all failure modes incl. the exported names, random values} x both wait modes, observed as the NetlinkMessage handed to a simulated kernel's Send and decoded word by word at the UAPI audit_status offsets (one request, type 1001, flags REQUEST|ACK, 44-byte payload, exactly one mask bit, the value in its field, every other word zero; NoWait does no receive); the 21 exported numbers against the kernel's; FromWireFormat on every buffer length 0..96 x random / all-ones / all-zero contents with a garbage-prefilled receiver and the input ending at a PROT_NONE page. The same cases run a second time under the race detector (checkptr) and, in the thorough tier, under ASan. distinct_nontrivial = distinct (setter, value, mode) triples and distinct buffers.",
+		Rule: "cases = every Set* command x {all uint32/int32 boundary values, both booleans, all failure modes incl. the exported names, random values} x both wait modes, observed as the NetlinkMessage handed to a simulated kernel's Send and decoded word by word at the UAPI audit_status offsets (one request, type 1001, flags REQUEST|ACK, 44-byte payload, exactly one mask bit, the value in its field, every other word zero; NoWait does no receive); the 21 exported numbers against the kernel's; GetStatus's request (one AUDIT_GET, REQUEST|ACK, empty) and its decoding of replies of every length 0..96; FromWireFormat on every buffer length 0..96 x random / all-ones / all-zero contents with a garbage-prefilled receiver and the input ending at a PROT_NONE page. The same cases run a second time under the race detector (checkptr) and, in the thorough tier, under ASan. distinct_nontrivial = distinct (setter, value, mode) triples and distinct buffers.",
 		Assumptions: []string{
 			"expected offsets, mask bits and numbers come from internal/uapi (hand-written from linux/audit.h, self-tested against the system header)",
 			"a field the buffer reaches only partially may be zero or hold the reached low bytes (the statement does not define it)",
